@@ -182,6 +182,64 @@ def run(loader, R, tier):
     R.floor("factories with parameter-argument sites", len(factories), 40)
     R.floor("decided (site, kind) obligations", decided, 400)
 
+    # ---------------------------------------------------------------- R3.3
+    # normaliser / validator agreement: the function classes whose
+    # is_canonical rejects an argument from which a minus sign could be
+    # extracted (could_extract_minus) are built by factories that normalise
+    # the argument with handle_minus.  The two sites must use the same
+    # predicate: handle_minus has to decide "extract" with
+    # could_extract_minus wherever is_canonical does — a different test
+    # (e.g. is_negative(), false for every Complex) lets the factory build
+    # an object its own is_canonical rejects.
+    R.rule("R3.3", "handle_minus decides with the predicate the "
+                   "is_canonical of the normalised classes uses "
+                   "(could_extract_minus)")
+    validators = [f for f in prog.functions.values()
+                  if f.get("n") == "is_canonical" and f.get("body")
+                  and any(n.get("k") == "call"
+                          and n.get("n") == "could_extract_minus"
+                          for n in walk(f["body"]))]
+    hm = prog.fn_by_qn("SymEngine::handle_minus")
+    if not hm or not validators:
+        raise AnalysisBroken("handle_minus / could_extract_minus anchors "
+                             "vanished")
+    R.floor("is_canonical functions that reject extractable minus signs",
+            len(validators), 8)
+    for f in hm:
+        branches = [n for n in walk(f["body"]) if n.get("k") == "if"]
+        # every `*rarg = mul(minus_one, arg)` (the extraction) must be
+        # guarded by could_extract_minus(...)
+        from selib import sym as _sym3
+        sites = []
+
+        def cb3(n, guards, line):
+            if n.get("k") == "call" and n.get("n") == "mul" and any(
+                    show(a).endswith("minus_one") or "minus_one" in show(a)
+                    for a in n.get("a", ())):
+                gs = [show(c) for c, p in [g for g in guards
+                                           if g[0] != "case"] if p]
+                sites.append((n.get("l") or line, gs))
+        _sym3.visit_guarded(f["body"], cb3)
+        for line, gs in sites:
+            key = "handle_minus@%s" % line
+            uses = any("could_extract_minus" in g or "is_minus_one" in g
+                       for g in gs)
+            R.instance("R3.3", key, sample={"extraction_guards":
+                                            [g[:60] for g in gs]})
+            if not uses:
+                R.violation(
+                    "R3.3", "handle_minus", prog.loc(f, line),
+                    "handle_minus extracts a minus sign at line %s under "
+                    "%s, not under could_extract_minus(...): %d "
+                    "is_canonical functions reject exactly the arguments "
+                    "for which could_extract_minus is true, so the factory "
+                    "can build objects its own validator rejects (e.g. a "
+                    "product with a complex coefficient)" % (
+                        line, [g[:50] for g in gs] or "no test",
+                        len(validators)))
+        if not sites:
+            raise AnalysisBroken("handle_minus: no extraction site found")
+
     # ---------------------------------------------------------------- R3.2
     from selib.visitors import Visitors
     R.rule("R3.2", "every raw Add::dict_add_term receives a coefficient-free "
